@@ -268,10 +268,17 @@ def check_owned(case):
     counts = {}
     waits = []
     stats = {"transitions": 0, "blind": 0}
+    e_reused = None
     for k in range(M):
         u = (k + 0.5) / M
         pr.clear()
-        e = pr.engine("gillespie")
+        # every second draw goes to ONE engine object set up again and again (replicates on one object), the others
+        # to a fresh object each: the law of a step may not depend on how often the object was used before
+        if k % 2:
+            e_reused = e_reused or pr.engine("gillespie")
+            e = e_reused
+        else:
+            e = pr.engine("gillespie")
         e.setup(script)
         pr.push([u, u])
         r = e.iterate()
